@@ -4,6 +4,8 @@ import (
 	"fmt"
 	"sort"
 
+	"gonum.org/v1/gonum/graph"
+
 	"github.com/yaricom/goNEAT/v4/neat/genetics"
 	"github.com/yaricom/goNEAT/v4/neat/network"
 )
@@ -391,6 +393,47 @@ func c11CheckN(g *GenomeSpec, again bool) (msg string, queries int64) {
 	}
 	if cnt != len(present) || len(all) != len(present) {
 		return fmt.Sprintf("Nodes() yields %d nodes (%d distinct), expected %d", cnt, len(all), len(present)), 0
+	}
+	// listings are independent values: a listing taken earlier and drained later, and a listing taken while
+	// another one is being walked (the nested loops of an all-pairs enumeration), each yield every node
+	itA, itB := net.Nodes(), net.Nodes()
+	itA.Next()
+	n2 := 0
+	for itB.Next() {
+		n2++
+	}
+	n1 := 1
+	for itA.Next() {
+		n1++
+	}
+	if n1 != len(present) || n2 != len(present) {
+		return fmt.Sprintf("two node listings taken one after the other and drained interleaved yield %d and %d nodes, expected %d each", n1, n2, len(present)), 0
+	}
+	pairs := 0
+	for outer := net.Nodes(); outer.Next(); {
+		for inner := net.Nodes(); inner.Next(); {
+			pairs++
+		}
+	}
+	if pairs != len(present)*len(present) {
+		return fmt.Sprintf("nested node listings visit %d ordered pairs, expected %d", pairs, len(present)*len(present)), 0
+	}
+	// the same for successor / predecessor listings: all of them taken first, drained afterwards
+	if len(ids) > 2 {
+		u0, u1 := ids[2], ids[len(ids)-1]
+		fa, fb, ta, tb := net.From(int64(u0)), net.From(int64(u1)), net.To(int64(u0)), net.To(int64(u1))
+		cnt := func(it graph.Nodes) map[int64]bool {
+			m := map[int64]bool{}
+			for it.Next() {
+				m[it.Node().ID()] = true
+			}
+			return m
+		}
+		gfa, gta, gfb, gtb := cnt(fa), cnt(ta), cnt(fb), cnt(tb)
+		wfa, wta, wfb, wtb := cnt(net.From(int64(u0))), cnt(net.To(int64(u0))), cnt(net.From(int64(u1))), cnt(net.To(int64(u1)))
+		if fmt.Sprint(gfa, gta, gfb, gtb) != fmt.Sprint(wfa, wta, wfb, wtb) {
+			return fmt.Sprintf("From/To listings of nodes %d and %d taken together and drained afterwards give %v, taken one at a time %v", u0, u1, []interface{}{gfa, gta, gfb, gtb}, []interface{}{wfa, wta, wfb, wtb}), 0
+		}
 	}
 	for _, u := range ids {
 		nd := net.Node(int64(u))
